@@ -73,9 +73,10 @@ def rule_copy_routines(ctx, cfg, r):
     for origin, x in allrows:
         if x.outcome[0] == "diverge":
             continue
-        disp1 = any(a[0] == "bin" and a[1] == "Eq" and is_const(a[3]) and const_val(a[3]) == 1 and s.single() == 1 and
-                    lin(a[2]) == DISP for a, s in x.atoms)
-        fwd = any(a[0] == "bin" and a[1] == "Gt" and uncast(a[2]) == O0 and uncast(a[3]) == S0 and s.single() == 1 for a, s in x.atoms)
+        resolve_minmax(x)      # |out_pos - source_pos| written as max - min reads as the difference the path's order test selects
+        RL = rels(x)
+        disp1 = any(rel == "Eq" and is_const(rhs) and const_val(rhs) == 1 and lin(lhs) == DISP for lhs, rel, rhs in RL)
+        fwd = any(rel == "Lt" and uncast(lhs) == S0 and uncast(rhs) == O0 for lhs, rel, rhs in RL)
 
         def disp_ok(d):
             return d == DISP or (disp1 and fwd and d == (1, {}))
@@ -244,12 +245,13 @@ def rule_copy_routines(ctx, cfg, r):
                     cc, ss = lin(u)
                     good = good and m and cc == k and len(ss) == 1 and is_src(next(iter(ss)))
                 # interleaving and order: set k takes Cell::get of the k-th source, read immediately before
-                sel = [".0.0", ".0.1", ".1"]
                 for k, e in enumerate(sets):
                     v = e[2][1]
                     dst = tstr(e[2][0])
-                    good = good and dst.endswith("[%d]" % k) and v[0] == "call" and v[1].endswith("Cell::<T>::get") and tstr(v[2][0]).endswith(sel[k]) and \
-                        (k == 0 or v[3] > sets[k - 1][4])
+                    g_ = gets[k + 1]
+                    want = ("field", ("field", ("call", g_[1], g_[2], g_[4]), "as Some"), "0")
+                    good = good and dst.endswith("[%d]" % k) and v[0] == "call" and v[1].endswith("Cell::<T>::get") and \
+                        paths.term_contains(v[2][0], lambda y: y == want) and (k == 0 or v[3] > sets[k - 1][4])
             if good:
                 n3 += 1
                 r.ok(g.name, "apply_match/len3", "3-byte case: out[pos+k] = out[(source+k) & mask], read and written interleaved, k = 0, 1, 2")
